@@ -225,7 +225,10 @@ def replay_on_model(chk, runs, label):
         mopen = bool(parsed[0][1]) if parsed else None
         mq = [p[0] for p in queue]
         if mfs != tags or mopen or mq != run.queue_left:
-            chk.violation(label, '%s:model:%s' % (label, hash(repr(case)) % 10 ** 8), {'case': case, 'expected': {'wire': mfs, 'queue': mq}, 'observed': {'wire': tags, 'queue': run.queue_left}},
+            # the wire itself passed the property's oracle (check_run): what no longer checks is that the observed operations are
+            # an execution of the model - reported as such, with the schedule for reproduction
+            chk.violation(label, '%s:model:%s' % (label, hash(repr(case)) % 10 ** 8), {'case': case, 'expected': {'wire': mfs, 'queue': mq}, 'observed': {'wire': tags, 'queue': run.queue_left},
+                                                                                       'no_failing_input_found': True, 'unchecked': 'correspondence: observed operation sequence vs Model/Conc.v (conc_run)'},
                           '%s: replaying the observed operations on the interleaving model gives wire %s queue %s; the real connection produced wire %s queue %s' % (run.progs, mfs, mq, tags, run.queue_left))
 
 
